@@ -36,6 +36,27 @@ func (propC17) Gen(seed uint64, tier string, idx int) *Plan2 {
 	p.Params["per_ip"], p.Params["burst"], p.Params["health"], p.Params["global"] = perIP, burst, health, global
 	// the background sweep of idle limiters runs in some histories: forgetting a client must never hand it a fresh burst early
 	p.Params["cleanup_ms"] = []int{0, 0, 500, 2000}[r.n(4)]
+	if r.n(8) == 0 {
+		// a client that spends a large burst, stays quiet for longer than the sweep's idle limit and comes
+		// back: being forgotten must not refill its bucket faster than the configured rate would have
+		perIP = []int{1, 2, 6}[r.n(3)]
+		burst = []int{15, 30}[r.n(2)]
+		p.Params["per_ip"], p.Params["burst"], p.Params["health"], p.Params["global"] = perIP, burst, 0, 0
+		p.Params["cleanup_ms"] = []int{30000, 240000}[r.n(2)]
+		quiet := int64((10*60 + 5 + r.n(240)) * 1000)
+		var t0, t1 []Op
+		for i := 0; i < burst+2; i++ {
+			t0 = append(t0, Op{K: "v", A: 0})
+		}
+		t0 = append(t0, Op{K: "sleep", A: quiet})
+		for i := 0; i < burst+2; i++ {
+			t0 = append(t0, Op{K: "v", A: 0})
+		}
+		t1 = append(t1, Op{K: "v", A: 1}, Op{K: "sleep", A: quiet + 1000}, Op{K: "v", A: 0}, Op{K: "v", A: 1})
+		p.Tasks = [][]Op{t0, t1}
+		p.Sub = fmt.Sprintf("ratelimit/idle-sweep/perip=%d/burst=%d/quiet=%ds/cleanup=%v", perIP, burst, quiet/1000, p.Params["cleanup_ms"])
+		return p
+	}
 	nT := 2 + r.n(5)
 	nIP := 1 + r.n(2)
 	p.Tasks = make([][]Op, nT)
